@@ -40,6 +40,9 @@ pub enum Op {
     BrkRel { delta: i64 },
     Store { off: u64, val: u64 },
     Load { off: u64 },
+    /// host action between two guest instructions: a new area `gap` bytes behind the current end of the
+    /// heap area (so it comes *after* the heap in ax's area list); the guest executes a NOP
+    Block { gap: u64, len: u64 },
 }
 
 #[derive(Serialize, Deserialize, Clone, Debug, PartialEq)]
@@ -104,7 +107,7 @@ pub fn run_c20(sc: &Sc, ctx: &mut Ctx) {
 fn gen_pipe(r: &mut Rng, thorough: bool) -> Sc {
     let n_ops = if thorough { r.range(4, 60) } else { r.range(4, 30) };
     let fault_cfg = r.chance(1, 2); // fault-free and fault-injecting configurations are separate
-    let max_n: u64 = *r.pick(&[8u64, 64, 300, 300, 2000]);
+    let max_n: u64 = *r.pick(&[8u64, 64, 300, 300, 2000, 2000, 16000]);
     let mut ops = Vec::new();
     let mut pipes = 0u64;
     for _ in 0..n_ops {
@@ -178,8 +181,10 @@ fn gen_brk(r: &mut Rng, thorough: bool, big: bool) -> Sc {
     let mut ops = vec![Op::Brk0];
     let max_grow: i64 = *r.pick(&[0x100i64, 0x1000, 0x3000, 0x10000, 0x100000, 0x1000000]);
     let mut cur: i64 = 0;
+    let w_block = *r.pick(&[0u32, 0, 1, 2]);
     for _ in 0..n_ops {
-        match r.weighted(&[2, 6, 8, 6]) {
+        match r.weighted(&[2, 6, 8, 6, w_block]) {
+            4 => ops.push(Op::Block { gap: *r.pick(&[0u64, 0, 1, 0x10, 0x800, 0x1000, 0x3000]), len: *r.pick(&[1u64, 0x10, 0x100, 0x1000]) }),
             0 => ops.push(Op::Brk0),
             1 => {
                 let d = match r.below(8) {
@@ -321,6 +326,10 @@ mod asm {
                 Op::Load { off } => {
                     marks.push(a.instructions().len());
                     a.mov(rcx, qword_ptr(rbx + *off as i32))?;
+                }
+                Op::Block { .. } => {
+                    marks.push(a.instructions().len());
+                    a.nop()?;
                 }
             }
         }
@@ -772,7 +781,32 @@ fn run_brk(sc: &Sc, ax: &mut Axecutor, marks: &[u64], _seen: &Rc<RefCell<Vec<(u6
     let mut unknown_break = false;
     // offset -> value, valid while the break has stayed above offset+8 since the write
     let mut shadow: BTreeMap<u64, u64> = BTreeMap::new();
+    let mut host_blocks: Vec<(u64, u64)> = Vec::new();
+    let mut overlap_reported = false;
     for (k, op) in sc.ops.iter().enumerate() {
+        // after every operation: no two areas intersect (real extents, not the handler's bookkeeping),
+        // and the areas the host created behind the heap still hold the host's bytes
+        if k > 0 && !overlap_reported {
+            let snap = area_snapshot(ax);
+            'o: for i in 0..snap.len() {
+                for j in i + 1..snap.len() {
+                    if intersects(snap[i].0, snap[i].1, snap[j].0, snap[j].1) {
+                        ctx.dev("C13", "C13|areas_overlap".into(), format!("after operation {} ({:?}) areas [{:#x},+{:#x}) and [{:#x},+{:#x}) intersect", k - 1, sc.ops[k - 1], snap[i].0, snap[i].1, snap[j].0, snap[j].1));
+                        overlap_reported = true;
+                        break 'o;
+                    }
+                }
+            }
+            for (s, l) in host_blocks.iter() {
+                match catch(|| ax.mem_read_bytes(*s, *l)) {
+                    Ok(Ok(b)) if b.iter().all(|x| *x == 0xb7) => {}
+                    _ => {
+                        ctx.dev("C13", "C13|neighbour_shadowed".into(), format!("after operation {} ({:?}) the area the host created at {s:#x} no longer reads back the host's bytes", k - 1, sc.ops[k - 1]));
+                        overlap_reported = true;
+                    }
+                }
+            }
+        }
         if !step_to(ax, marks[k], ctx) {
             // argument loading can only fail if an earlier step left RIP elsewhere
             ctx.harness_errors.push("argument loading failed".into());
@@ -780,8 +814,22 @@ fn run_brk(sc: &Sc, ax: &mut Axecutor, marks: &[u64], _seen: &Rc<RefCell<Vec<(u6
         }
         let rdi = ax.reg_read_64(SR::RDI).unwrap_or(0);
         let rbx = ax.reg_read_64(SR::RBX).unwrap_or(0);
+        if let Op::Block { gap, len } = op {
+            let (hs, _) = ax.verif_brk();
+            if let Some(h) = area_snapshot(ax).iter().find(|a| hs != 0 && a.0 == hs) {
+                // never at the very start of a still empty heap: two areas with one start address are C10's grey zone
+                let start = h.0 + h.1 + gap + (h.1 == 0 && *gap == 0) as u64;
+                // read-only: the guest cannot legitimately change it, whatever its stores beyond the break hit
+                let made = matches!(catch(|| ax.mem_init_area(start, vec![0xb7; *len as usize])), Ok(Ok(()))) && matches!(catch(|| ax.mem_prot(start, 1)), Ok(Ok(())));
+                ctx.event(&format!("host_block:{}", if made { "created" } else { "refused" }), "");
+                if made {
+                    ctx.fault("area_created_behind_live_heap");
+                    host_blocks.push((start, *len));
+                }
+            }
+        }
         let before = area_snapshot(ax);
-        let (heap_start, _heap_len) = ax.verif_brk();
+        let (heap_start, heap_len) = ax.verif_brk();
         let out = do_step(ax);
         ctx.guest_steps += 1;
         ctx.nontrivial = true;
@@ -828,7 +876,9 @@ fn run_brk(sc: &Sc, ax: &mut Axecutor, marks: &[u64], _seen: &Rc<RefCell<Vec<(u6
                 };
                 let p = rdi;
                 let (hs, _) = if heap_start != 0 { (heap_start, 0) } else { ax.verif_brk() };
-                let fits = p >= hs && !before.iter().any(|a| a.0 != hs && intersects(hs, p - hs, a.0, a.1));
+                // every area except the heap itself (an area the host put at the start of a still empty heap is not the heap)
+                let me = before.iter().position(|a| a.0 == hs && (heap_start == 0 || a.1 == heap_len));
+                let fits = p >= hs && !before.iter().enumerate().any(|(i, a)| Some(i) != me && intersects(hs, p - hs, a.0, a.1));
                 let kind = if p < b {
                     "below_base"
                 } else if p > brk {
